@@ -95,9 +95,10 @@ CLAIMED = {
              "parameters symbolic: active types = non-zero parameters, acceptance = documented ranges, field-wise round trip), Device/VirtualDevice "
              "with EOM/DMM and 12 optional-field patterns (symbolic channel and device numbers, real schema validation, field-wise equality), "
              "Register/Register3D/RegisterLayout/DetuningMap with symbolic coordinates and weights, EmulationConfig with default observables, "
-             "StateRepr, noise model and symbolic evaluation times, plus independence of repeated decodes.", ref="§6 C17, §11",
-             note="Trusted base: z3, symx, token JSON facade. Findings F14, F15 are reported as KNOWN-FINDING. Results, QuTiP-backed State/Operator classes and "
-             "SimConfig are outside the claim; aliasing is decided by identity/mutation checks."),
+             "StateRepr, noise model and symbolic evaluation times, NoiseModel -> SimConfig -> NoiseModel (symbolic rates/probabilities, effective-noise "
+             "channels), plus independence of repeated decodes.", ref="§6 C17, §11",
+             note="Trusted base: z3, symx, token JSON facade. Findings F14, F15, F21 are reported as KNOWN-FINDING. Results, QuTiP-backed State/Operator classes and "
+             "the uK<->K temperature conversion of SimConfig are outside the claim; aliasing is decided by identity/mutation checks."),
  "C02": dict(text="Bounded symbolic model checking of the real _Schedule operations: one operation from an arbitrary state "
              "satisfying the representation invariant (inductive step), all times/durations/fall times/limits as solver variables; "
              "exhaustive over paths and values inside the stated slot-count/clock bounds.", ref="§6 C02, §5 L1"),
